@@ -18,7 +18,18 @@ CONST_OK = {
     ('FileScanExecConf', 'projection'): 'superseded by projection_exprs',
     ('SortExprNode', 'expr'): 'SortMergeJoinExec sends only the sort options of its keys; the key expressions travel in `on`',
 }
+CONST_OK.update({
+    ('ProjectionNode', 'optional_alias'): 'legacy field: an aliased projection is encoded as a SubqueryAlias node above it; the decoder still accepts the old form',
+})
 UNREAD_OK = {
+    ('UnnestNode', 'list_type_columns'): 'derived: the decoder rebuilds the node with LogicalPlanBuilder::unnest_columns_with_options(exec_columns, options), which recomputes it',
+    ('UnnestNode', 'struct_type_columns'): 'derived (see list_type_columns)',
+    ('UnnestNode', 'dependency_indices'): 'derived (see list_type_columns)',
+    ('UnnestNode', 'schema'): 'derived (see list_type_columns)',
+    ('ColumnUnnestListItem', 'input_index'): 'part of the derived list_type_columns',
+    ('ColumnUnnestListItem', 'recursion'): 'part of the derived list_type_columns',
+    ('ColumnUnnestListRecursion', 'output_column'): 'part of the derived list_type_columns',
+    ('ColumnUnnestListRecursion', 'depth'): 'part of the derived list_type_columns',
     ('PhysicalExprNode', 'expr_id'): 'consumed by the deserializer context (de-duplication cache) before the node decoder runs',
     ('CsvSinkExecNode', 'sink_schema'): 'the sink is rebuilt over the decoded input plan; its schema is derived from it',
     ('JsonSinkExecNode', 'sink_schema'): 'as CsvSinkExecNode',
@@ -78,11 +89,11 @@ def _reads(rec, adt):
 
     def sp(pl):
         loc, projs = pl
-        if adt in lt[loc]:
-            for p in projs:
-                if isinstance(p, list) and p[0] == 'f':
-                    out.add(p[2] or str(p[1]))
-                    break
+        for p in projs:
+            # the exporter names the ADT that owns each projected field: reads through enum payloads, boxes and
+            # references are attributed to the right message type
+            if isinstance(p, list) and p[0] == 'f' and len(p) > 3 and p[3] == adt:
+                out.add(p[2] or str(p[1]))
 
     def so(op):
         if isinstance(op, list) and op and op[0] in ('c', 'm'):
@@ -192,3 +203,76 @@ def check(ctx, rule_enc='encoder-fills-every-field', rule_dec='decoder-reads-eve
         ctx.floor(rule_enc, 'encoders building a generated message', n_enc, floors[0])
         ctx.floor(rule_dec, 'encoder/decoder pairs', n_dec, floors[1])
     return n_enc, n_dec
+
+
+def _built_and_consts(f, etree, genp):
+    built, consts = {}, []
+    for t in etree:
+        if t not in f.fn_index:
+            continue
+        for i in range(len(f.fn_index[t])):
+            rec = f.fn(t, i)
+            if 'bb' not in rec:
+                continue
+            dm, mutref = _defs(rec)
+            for b in rec['bb']:
+                for st in b['s']:
+                    if st[0] == '=' and st[2][0] == 'agg' and st[2][1][0] == 'adt' and st[2][1][1].startswith(genp):
+                        a = f.adts.get(st[2][1][1])
+                        if not a or a['kind'] != 'struct':
+                            continue
+                        msg = st[2][1][1]
+                        built[msg] = rec
+                        flds = a['variants'][0]['fields']
+                        ops = st[2][2]
+                        for k in range(min(len(flds), len(ops))):
+                            c = _klass(dm, mutref, ops[k])
+                            if c != 'value':
+                                consts.append((msg.rsplit('::', 1)[-1], flds[k][0], c))
+    return built, consts
+
+
+def check_roots(ctx, label, enc, dec, rule_enc='encoder-fills-every-field', rule_dec='decoder-reads-every-field', genp=GENP,
+                const_ok=CONST_OK, unread_ok=UNREAD_OK, depth=3, min_messages=1):
+    """one big encoder function (+closures) against one big decoder function (call tree to `depth`): per message"""
+    f = ctx.facts
+    if enc not in f.fn_index:
+        ctx.lost(rule_enc, enc)
+        return 0
+    if dec not in f.fn_index:
+        ctx.lost(rule_dec, dec)
+        return 0
+    etree = [enc] + sorted(x for x in f.fn_index if x.startswith(enc + '::{closure'))
+    built, consts = _built_and_consts(f, etree, genp)
+    ctx.analysed_fns.add(enc)
+    ctx.analysed_fns.add(dec)
+    tree = f.call_tree(dec, depth=depth)
+    n = 0
+    for msg in sorted(built):
+        sm = msg.rsplit('::', 1)[-1]
+        n += 1
+        bad = sorted({(fl, c) for (m_, fl, c) in consts if m_ == sm and (m_, fl) not in const_ok})
+        inst = '%s: %s' % (label, sm)
+        if bad:
+            ctx.fail(rule_enc, inst, ctx.loc(built[msg]), 'the encoder fills %s with a constant: the value is dropped on the wire' % ', '.join('%s.%s (%s)' % (sm, fl, c) for fl, c in bad),
+                     key='%s|%s|%s' % (rule_enc, sm, ','.join(fl for fl, c in bad)))
+        else:
+            ctx.ok(rule_enc, inst, sample={'message': msg} if n <= 3 else None)
+        flds = [fl[0] for fl in f.adts[msg]['variants'][0]['fields']]
+        rd = set()
+        for t in tree:
+            if t in f.fn_index:
+                for i in range(len(f.fn_index[t])):
+                    r = f.fn(t, i)
+                    if 'bb' in r:
+                        rd |= _reads(r, msg)
+        miss = [x for x in flds if x not in rd and (sm, x) not in unread_ok]
+        for x in miss:
+            # one obligation per field, so that a known finding on one field does not hide another
+            ctx.fail(rule_dec, '%s.%s' % (sm, x), ctx.loc(f.fn(dec)), 'the encoder writes %s.%s but nothing in the call tree of %s reads it: the value is lost on decode and the '
+                     'round-tripped plan differs from the original' % (sm, x, dec.rsplit('::', 1)[-1]), key='%s|%s.%s' % (rule_dec, sm, x))
+        if not miss:
+            ctx.ok(rule_dec, inst)
+    if n < min_messages:
+        ctx.fail(rule_enc, label, enc, 'only %d generated messages are built by the encoder (floor %d): rule went blind' % (n, min_messages), key='%s|floor|%s' % (rule_enc, label))
+    return n
